@@ -204,6 +204,65 @@ def rule_a(ctx):
                     ok, why = False, 'the received count is not reset when the next batch is requested'
         rep.add('C06.a', '%s RxSubscriber.on_next / next batch triggered after exactly limit_rate elements' % pkg, on,
                 ok and n_set > 0, why or 'get_next_n.set() when received == self.%s, count reset' % lim_attr)
+    # 5b. batch counting: every element counts once, the count is what is compared with the limit, it restarts at
+    # zero with every new batch, and the first batch is requested on subscription
+    counted = [('rsocket.awaitable.collector_subscriber:CollectorSubscriber', '_limit_rate', False),
+               ('rsocket.reactivex.from_rsocket_publisher:RxSubscriberFromObserver', 'limit_rate', True),
+               ('rsocket.rx_support.from_rsocket_publisher:RxSubscriberFromObserver', 'limit_rate', True),
+               ('rsocket.reactivex.from_rsocket_publisher:RxSubscriber', 'limit_rate', False),
+               ('rsocket.rx_support.from_rsocket_publisher:RxSubscriber', 'limit_rate', False)]
+    for spec, attr, requests_on_subscribe in counted:
+        c = ctx.repo.cls(spec)
+        on = c.lookup('on_next')
+        init = c.lookup('__init__')
+        ok = True
+        why = ''
+        n_full = 0
+        counter = None
+        for p in ctx.paths(on, c, args={'is_complete': const(False)}):
+            if p.outcome != 'return':
+                continue
+            incs = [e for e in p.events if e.kind == 'store' and e.data['target'][0] == 'attr' and
+                    e.data['target'][1] == ('self',) and e.data.get('aug') == 'Add']
+            gates = [x for x in p.events if x.kind == 'cond' and x.data['key'][0] == 'eq' and
+                     ('attr', ('self',), attr) in [strip_epoch(t) for t in x.data['key'][1:3]]]
+            if not gates:
+                continue
+            other = [strip_epoch(t) for t in gates[-1].data['key'][1:3] if strip_epoch(t) != ('attr', ('self',), attr)]
+            cands = [e for e in incs if other and e.data['target'][2] in repr(other[0])]
+            if len(cands) != 1 or strip_epoch(cands[0].data['value'].term)[3:4] != (('const', 1),) or \
+                    cands[0].seq > gates[-1].seq:
+                ok, why = False, ('the count compared with the limit is not incremented by exactly 1 for the element '
+                                  'just received, before the comparison')
+                continue
+            counter = cands[0].data['target'][2]
+            resets = [e for e in p.events if e.kind == 'store' and e.data['target'][0] == 'attr' and
+                      e.data['target'][2] == counter and e.data['value'].is_const() and e.seq > gates[-1].seq]
+            if gates[-1].data['value'] is True:
+                n_full += 1
+                if not resets or resets[-1].data['value'].const != 0:
+                    ok, why = False, 'the count is not reset to 0 when a full batch has been received'
+            elif resets:
+                ok, why = False, 'the count is reset although the batch is not complete'
+        if counter is None:
+            ok, why = False, 'no received-count is compared with the limit'
+        else:
+            st = [v for f_, s_, v in ctx.repo.attr_assignments(c, counter) if f_.name == '__init__']
+            if not st or not (isinstance(st[0], ast.Constant) and st[0].value == 0):
+                ok, why = False, 'the received count does not start at 0'
+        if requests_on_subscribe:
+            osub = c.lookup('on_subscribe')
+            good = False
+            for p in ctx.paths(osub, c):
+                reqs = [e for e in p.events if e.kind == 'call' and e.data.get('name') == 'request']
+                st = [e for e in p.events if e.kind == 'store' and e.data['target'][0] == 'attr' and
+                      e.data['target'][2] == 'subscription']
+                good = p.outcome == 'return' and len(reqs) == 1 and len(st) == 1 and \
+                    strip_epoch(reqs[0].data['args'][0].term) == ('attr', ('self',), attr)
+            if not good:
+                ok, why = False, 'on_subscribe does not keep the subscription and request the first batch of the limit'
+        rep.add('C06.a', '%s (%s) / batch counting' % (c.name, spec.split('.')[1]), on, ok and n_full > 0,
+                why or 'count += 1 per element, compared with the limit, reset to 0 with every new batch')
     # 6. clients: the same request_limit configures the initial request-n and the re-request size
     for spec in ('rsocket.reactivex.reactivex_client:ReactiveXClient', 'rsocket.rx_support.rx_rsocket:RxRSocket'):
         c = ctx.repo.cls(spec)
